@@ -24,6 +24,7 @@ static void set_object(int kind, uint32_t S, int content)
     }
 }
 
+static int RF_B = -1, RF_J;    /* refused transmission (block, segment) of the case in progress */
 static uint64_t outcome(int r, uint32_t len) { return cl_trace ^ ((uint64_t)r << 60) ^ len; }
 
 static int check_upload(int r, int oi, uint32_t len, uint32_t ann, const char *what)
@@ -39,16 +40,18 @@ static int check_upload(int r, int oi, uint32_t len, uint32_t ann, const char *w
 /* mode 0: segmented/expedited; mode 1: block with block size bs and up to two deviations; the transfer runs twice */
 static void one_case(int kind, uint32_t S, int content, int mode, int bs, const int *db, const int *da, const int *dbs, int ndev, int *blocks)
 {
-    char what[160], smp[200]; uint32_t len = 0, ann = 0; int r, oi = kind ? O_STRV : O_DOMB; uint16_t idx = kind ? 0x2023 : 0x2012;
+    char what[200], smp[240]; uint32_t len = 0, ann = 0; int r, oi = kind ? O_STRV : O_DOMB; uint16_t idx = kind ? 0x2023 : 0x2012;
     w_restore(snap0); w_obs_clear();
     set_object(kind, S, content);
     cl_trace = 0; cl_frames = 0; cl_abort = 0;
     for (int rep = 0; rep < 2; rep++) {
         memset(BUF, 0xEE, sizeof BUF);
-        snprintf(what, sizeof what, "%s S=%u content=%d %s bs=%d dev=(%d,%d,%d)(%d,%d,%d) run %d", kind ? "string" : "domain", S, content, mode ? "block" : "segmented", bs,
-                 ndev > 0 ? db[0] : -1, ndev > 0 ? da[0] : -1, ndev > 0 ? dbs[0] : -1, ndev > 1 ? db[1] : -1, ndev > 1 ? da[1] : -1, ndev > 1 ? dbs[1] : -1, rep);
+        snprintf(what, sizeof what, "%s S=%u content=%d %s bs=%d dev=(%d,%d,%d)(%d,%d,%d) refused=(%d,%d) run %d", kind ? "string" : "domain", S, content, mode ? "block" : "segmented", bs,
+                 ndev > 0 ? db[0] : -1, ndev > 0 ? da[0] : -1, ndev > 0 ? dbs[0] : -1, ndev > 1 ? db[1] : -1, ndev > 1 ? da[1] : -1, ndev > 1 ? dbs[1] : -1, RF_B, RF_J, rep);
+        cl_refuse_blk = rep == 0 ? RF_B : -1; cl_refuse_seg = RF_J;
         if (mode == 0) r = cl_upload(0, idx, 0, BUF, sizeof BUF, &len, &ann);
         else r = cl_blk_ul(0, idx, 0, (uint8_t)bs, BUF, sizeof BUF, &len, &ann, db, da, dbs, rep == 0 ? ndev : 0);
+        cl_refuse_blk = -1; DRV.send_refuse_nth = 0;
         if (rep == 0 && blocks) *blocks = cl_blk_blocks;
         mc_log("  %s -> r=%d len=%u announced=%u frames=%ld\n", what, r, len, ann, cl_frames);
         if (check_upload(r, oi, len, ann, what)) break;
@@ -74,6 +77,20 @@ static void run_object(int kind, uint32_t S, int tier)
             one_case(kind, S, content, 1, bs, 0, 0, 0, 0, &blocks);
             /* deviations */
             int nblk = blocks > 64 ? 64 : blocks;
+            /* the server's own CAN driver refuses one segment ("busy"): the frame never reaches the client, which acknowledges the in-order
+             * prefix - alone, and together with a change of the block size in that acknowledge */
+            {
+                int sentr[64]; memcpy(sentr, cl_blk_sent, sizeof sentr);
+                for (int b0 = 0; b0 < nblk; b0++) for (int j = 1; j <= sentr[b0]; j++) for (int nb = 0; nb < 2; nb++) {
+                    if (S > 200 && !(b0 <= 1 || b0 >= nblk - 2) ) continue;
+                    if (S > 200 && !(j <= 2 || j >= sentr[b0] - 1 || j == sentr[b0] / 2)) continue;
+                    int db[2] = { b0, -1 }, da[2] = { -1, -1 }, dbs[2] = { nb ? (bs < 127 ? bs + 1 : 126) : 0, 0 };
+                    RF_B = b0; RF_J = j;
+                    mc_case(9, kind, (int)S, content, 1, bs, 3, b0, j, nb);
+                    one_case(kind, S, content, 1, bs, db, da, dbs, nb, 0);
+                    RF_B = -1; RF_J = 0;
+                }
+            }
             for (int b0 = 0; b0 < nblk; b0++) {
                 int sent0 = cl_blk_sent[b0]; (void)sent0;
                 int sentv[64]; memcpy(sentv, cl_blk_sent, sizeof sentv);
@@ -255,6 +272,13 @@ static void run_case(const int *c, int n)
     mc_case_v(c + 1, n - 1);
     if (c[1] == 200 && n >= 10) { history_case(c[2], (uint32_t)c[3], c[4], c[5], c[6], c[7], c[8], c[9]); return; }
     if (c[1] >= 100) { basic_case(c[1] - 100, c[2], c[3], c[4]); return; }
+    if (c[6] == 3 && n >= 10) {        /* refused transmission of segment c[8] in block c[7], optionally with a block size change */
+        int bs = c[5], db[2] = { c[7], -1 }, da[2] = { -1, -1 }, dbs[2] = { c[9] ? (bs < 127 ? bs + 1 : 126) : 0, 0 };
+        RF_B = c[7]; RF_J = c[8];
+        one_case(c[1], (uint32_t)c[2], c[3], c[4], bs, db, da, dbs, c[9] ? 1 : 0, 0);
+        RF_B = -1; RF_J = 0;
+        return;
+    }
     int db[2] = { n > 7 ? c[7] : -1, n > 10 ? c[10] : -1 }, da[2] = { n > 8 ? c[8] : -1, n > 11 ? c[11] : -1 }, dbs[2] = { n > 9 ? c[9] : 0, n > 12 ? c[12] : 0 };
     one_case(c[1], (uint32_t)c[2], c[3], c[4], c[5], db, da, dbs, c[6], 0);
 }
